@@ -11,6 +11,7 @@ import CppUtil.Gen.Pess
 import CppUtil.Gen.Opt
 import CppUtil.Gen.Mcs
 import CppUtil.Model.TClient
+import CppUtil.Model.EpochLock
 import CppUtil.Gen.Thread
 import CppUtil.Monitor.ThreadMon
 import Driver.ZipfDrv
@@ -21,17 +22,17 @@ open CppUtil CppUtil.WClient CppUtil.Monitor
 inductive Sim where
   | w (P : WLock.WParams) (c : WClient.Client)
   | m (P : Mcs.Params) (c : MClient.Client)
-  | th (P : TClient.Params) (c : TClient.Client)
+  | th (P : TClient.Params) (c : TClient.Client) (l : EpochLock.Lock)
 
 def Sim.step : Sim → Nat → Option (Sim × String × List String)
   | .w P c, t => (WClient.stepThread P c t).map fun (c', e, o) => (.w P c', e, o)
   | .m P c, t => (MClient.stepThread P c t).map fun (c', e, o) => (.m P c', e, o)
-  | .th P c, t => (TClient.stepThread P c t).map fun (c', e, o) => (.th P c', e, o)
+  | .th P c l, t => (TClient.stepThread P c t).map fun (c', e, o) => (.th P c' (EpochLock.sync P l c c' t), e, o)
 
 def Sim.allDone : Sim → Bool
   | .w _ c => c.threads.all (·.finished)
   | .m _ c => c.threads.all (·.finished)
-  | .th _ c => c.threads.all (·.finished)
+  | .th _ c _ => c.threads.all (·.finished)
 
 /-- (thread, lock) for every unfinished thread that is inside an operation on a lock -/
 def Sim.blockedOn : Sim → List (Nat × Nat)
@@ -51,12 +52,17 @@ def Sim.blockedOn : Sim → List (Nat × Nat)
            | .atom a => some (t, MClient.agentLk c a)
            | _ => none)
       | none => none
-  | .th _ _ => []
+  | .th _ _ _ => []
+
+/-- lockstep with the protocol model: (actions applied, status) -/
+def Sim.proto : Sim → Option (Nat × EpochLock.Status)
+  | .th _ _ l => some (l.applied, l.status)
+  | _ => none
 
 def Sim.uaf : Sim → Nat
   | .w _ _ => 0
   | .m _ c => c.core.uaf
-  | .th _ _ => 0
+  | .th _ _ _ => 0
 
 def splitWs (s : String) : List String := (s.splitOn " ").filter (· ≠ "")
 
@@ -167,6 +173,9 @@ structure Stats where
   bools : Nat := 0
   pays : Nat := 0
   maxSimul : Nat := 0
+  protoSteps : Nat := 0
+  protoOutside : Nat := 0
+  protoScen : Nat := 0
 
 def bump (l : List (String × Nat)) (k : String) : List (String × Nat) :=
   if l.any (·.1 == k) then l.map (fun p => if p.1 == k then (p.1, p.2 + 1) else p) else l ++ [(k, 1)]
@@ -186,6 +195,7 @@ def threadParams (sc : Scen) : TClient.Params :=
 
 def mkSim (sc : Scen) : Sim :=
   if sc.comp == "thread" then .th (threadParams sc) (TClient.mkClient (threadParams sc) sc.nvars sc.tprogs)
+    (EpochLock.mkLock (threadParams sc) sc.tprogs.size)
   else if sc.comp == "mcs" then .m mcsParams (MClient.mkClient sc.nlocks sc.kinds sc.progs)
   else if sc.comp == "opt" then .w (Gen.opt sc.retry) { WClient.mkClient sc.nlocks sc.kinds sc.progs with versioned := true }
   else .w (Gen.pess sc.retry) (WClient.mkClient sc.nlocks sc.kinds sc.progs)
@@ -330,6 +340,15 @@ partial def loop (h : IO.FS.Stream) (cur : Option Run) (pend : Scen) (st : Stats
     let corr := match r.mismatch with
       | some m => s!"mismatch {m}"
       | none => if status == "ok" && !modelDone then "mismatch end: implementation finished, model did not" else "ok"
+    -- the protocol model (about which the interleaving theorems are proved) must follow the interpreter
+    let corr := match corr, r.sim.proto with
+      | "ok", some (_, .fail m) => s!"mismatch protocol model (EpochProto) does not follow the thread-level model: {m}"
+      | c, _ => c
+    let protoS := match r.sim.proto with
+      | some (k, .ok) => s!" proto=ok:{k}"
+      | some (k, .outside w) => s!" proto=outside:{k}:{w.replace " " "_"}"
+      | some (k, .fail _) => s!" proto=FAIL:{k}"
+      | none => ""
     let monS := match r.mon.bad, r.mon.th.bad, r.mon.opt.bad with
       | some m, _, _ => s!"FAIL {m}"
       | none, some m, _ => s!"FAIL {m}"
@@ -338,14 +357,17 @@ partial def loop (h : IO.FS.Stream) (cur : Option Run) (pend : Scen) (st : Stats
     let hbS := match r.mon.hb.bad with | some m => s!"FAIL {m}" | none => "ok"
     let leak := if status == "ok" && monS == "ok" && !r.mon.grants.isEmpty then
       s!"FAIL guard: {r.mon.grants.length} grant(s) never released at the end" else monS
-    IO.println s!"RES {r.sc.id} end={status} steps={r.step} corr={corr} ;; mon={leak} ;; hb={hbS}"
+    IO.println s!"RES {r.sc.id} end={status}{protoS} steps={r.step} corr={corr} ;; mon={leak} ;; hb={hbS}"
     let st := { st with scen := st.scen + 1,
                         mismatches := st.mismatches + (if corr == "ok" then 0 else 1),
                         monFails := st.monFails + (if leak == "ok" then 0 else 1),
                         stuck := st.stuck + (if status == "ok" then 0 else 1),
                         grants := st.grants + r.mon.nGrants, conv := st.conv + r.mon.nConv,
                         bools := st.bools + r.mon.nBool, pays := st.pays + r.mon.nPay,
-                        maxSimul := max st.maxSimul r.mon.maxSimul }
+                        maxSimul := max st.maxSimul r.mon.maxSimul,
+                        protoSteps := st.protoSteps + (match r.sim.proto with | some (k, _) => k | none => 0),
+                        protoScen := st.protoScen + (match r.sim.proto with | some (_, .ok) => 1 | _ => 0),
+                        protoOutside := st.protoOutside + (match r.sim.proto with | some (_, .outside _) => 1 | _ => 0) }
     loop h none {} st
   else if line.startsWith "HBEND " || line.startsWith "PNODES " then
     match cur with
@@ -370,5 +392,5 @@ def main (args : List String) : IO UInt32 := do
   let stdin ← IO.getStdin
   let st ← loop stdin none {} {}
   let kinds := ", ".intercalate (st.evKinds.map fun (k, n) => s!"\"{k}\": {n}")
-  IO.println s!"STATS \{\"scenarios\": {st.scen}, \"quanta\": {st.quanta}, \"mismatches\": {st.mismatches}, \"monitor_failures\": {st.monFails}, \"not_ok_end\": {st.stuck}, \"cas_failures\": {st.casFail}, \"grants\": {st.grants}, \"conversions\": {st.conv}, \"bool_checks\": {st.bools}, \"payload_reads\": {st.pays}, \"max_simultaneous_grants\": {st.maxSimul}, \"events\": \{{kinds}}}"
+  IO.println s!"STATS \{\"scenarios\": {st.scen}, \"quanta\": {st.quanta}, \"mismatches\": {st.mismatches}, \"monitor_failures\": {st.monFails}, \"not_ok_end\": {st.stuck}, \"cas_failures\": {st.casFail}, \"grants\": {st.grants}, \"conversions\": {st.conv}, \"bool_checks\": {st.bools}, \"payload_reads\": {st.pays}, \"max_simultaneous_grants\": {st.maxSimul}, \"proto_lockstep_actions\": {st.protoSteps}, \"proto_lockstep_scenarios\": {st.protoScen}, \"proto_outside_premise\": {st.protoOutside}, \"events\": \{{kinds}}}"
   return 0
